@@ -1402,6 +1402,17 @@ impl Path {
         // According to the spec, dash should not be accounted during bbox calculation.
         stroke.dash = None;
 
+        // The stroker multiplies coordinates with each other (curvature of quads/cubics):
+        // beyond ~sqrt(f32::MAX) the products overflow to inf/NaN and it unwraps a None.
+        const LIMIT: f32 = 1.0e18;
+        let b = path.bounds();
+        if [b.left(), b.top(), b.right(), b.bottom()]
+            .iter()
+            .any(|v| !v.is_finite() || v.abs() > LIMIT)
+        {
+            return None;
+        }
+
         // TODO: avoid for round and bevel caps
 
         // Expensive, but there is not much we can do about it.
